@@ -331,7 +331,11 @@ def _nullstart_fs(v, params):
     wildcard stands behind constructs that matched the empty string."""
     if v['kind'] not in ('glob-vs-reference', 'glob-vs-bash', 'pathlib-vs-reference', 'globmatch-vs-reference'):
         return False
-    if not _fs_extra_only_hidden(v):
+    if v['kind'] == 'pathlib-vs-reference':
+        # pathlib normalises './a' to 'a': only require that nothing is missing
+        if v['observed'].get('missing') or not v['observed'].get('extra'):
+            return False
+    elif not _fs_extra_only_hidden(v):
         return False
     seq = _ast(v)
     if seq is None:
